@@ -247,6 +247,9 @@ type Style struct {
 	// FailFirst: in an explicit local transaction the application first runs an UPDATE of an existing row that
 	// the database fails, handles the error and carries on (MySQL rolls back the statement, not the transaction)
 	FailFirst bool
+	// FailIns (with FailFirst): the statement that fails is an INSERT of a key that exists (a duplicate-key error
+	// the database raises by itself), not an UPDATE hit by an injected fault
+	FailIns bool
 	// switches that steer around statement forms with known phase-one defects (reported under C16/C18),
 	// so that they do not mask everything downstream of phase one
 	// OmitU: INSERT does not name the column the statements never write (u1); it gets its DEFAULT, which is the
@@ -262,7 +265,7 @@ func (st Style) IsMulti(s Stmt) bool {
 }
 
 func RandStyle(r *rand.Rand) Style {
-	return Style{Literal: r.Intn(3) == 0, InList: r.Intn(2) == 0, Explicit: r.Intn(3) == 0, Upper: false, Multi: r.Intn(4) == 0, FailFirst: r.Intn(4) == 0, NoWhereFirst: r.Intn(2) == 0, RefuseReports: r.Intn(2) == 0, PkLate: r.Intn(3) == 0, OmitU: r.Intn(3) == 0}
+	return Style{Literal: r.Intn(3) == 0, InList: r.Intn(2) == 0, Explicit: r.Intn(3) == 0, Upper: false, Multi: r.Intn(4) == 0, FailFirst: r.Intn(4) == 0, NoWhereFirst: r.Intn(2) == 0, RefuseReports: r.Intn(2) == 0, PkLate: r.Intn(3) == 0, OmitU: r.Intn(3) == 0, FailIns: r.Intn(2) == 0}
 }
 
 func lit(v interface{}) string {
